@@ -17,6 +17,7 @@
 package db
 
 import (
+	"bytes"
 	"encoding/binary"
 	"fmt"
 	"os"
@@ -288,13 +289,14 @@ func readAttr(b *bolt.Bucket, attr *metadata.Attr) error {
 			if attr.Xattrs == nil {
 				attr.Xattrs = make(map[string][]byte)
 			}
-			attr.Xattrs[string(v)] = b.Get(bucketKeyXattrValue)
+			// byte slices returned by bolt are only valid during the transaction
+			attr.Xattrs[string(v)] = bytes.Clone(b.Get(bucketKeyXattrValue))
 		case string(bucketKeyXattrsExtra):
 			if err := b.Bucket(k).ForEach(func(k, v []byte) error {
 				if attr.Xattrs == nil {
 					attr.Xattrs = make(map[string][]byte)
 				}
-				attr.Xattrs[string(k)] = v
+				attr.Xattrs[string(k)] = bytes.Clone(v)
 				return nil
 			}); err != nil {
 				return err
